@@ -73,13 +73,13 @@ def parseEl : List String → Option El
   | "feat" :: toks => (parseFeat toks).map .features
   | ["proceed", b] => (b01 b).map .proceed
   | ["tlsfailure"] => some .tlsFailure
-  | ["success"] => some .saslSuccess
+  | ["success", p] => (b01 p).map .saslSuccess
   | ["failure"] => some .saslFailure
   | ["challenge", b] => (b01 b).map .saslChallenge
-  | ["success2", b, r, t] => do
+  | ["success2", b, r, t, p] => do
     let bb ← (match b with | "0" => some S2Bound.none | "1" => some .plain | "2" => some .smEnabled | "3" => some .smFailed | _ => none)
     let rr ← (match r with | "0" => some S2Sm.none | "1" => some .resumed | "2" => some .failed | _ => none)
-    some (.s2Success bb rr (← b01 t))
+    some (.s2Success bb rr (← b01 t) (← b01 p))
   | ["failure2"] => some .s2Failure
   | ["challenge2", b] => (b01 b).map .s2Challenge
   | ["continue2"] => some .s2Continue
